@@ -82,7 +82,7 @@ def general_graph(rnd, max_nodes=7, bnodes=True, rich_literals=True, inst_prop=M
                 else:
                     o = _lit(rnd, rich_literals)
                 T.add((n, p, o))
-    if hierarchy and rnd.random() < .25:      # the classes are described in the data too (typed with a meta-class, linked from / to nodes)
+    if hierarchy and rnd.random() < (.25 if hierarchy is True else float(hierarchy)):      # the classes are described in the data too (typed with a meta-class, linked from / to nodes)
         for c in classes:
             if rnd.random() < .7:
                 T.add((M.iri(c), inst_prop, M.iri(EX + "Kind")))
